@@ -24,7 +24,7 @@ import (
 // (the binary is built with -race by the driver; a report makes the test fail).
 func TestC15Race(t *testing.T) {
 	rec := evid.New(t, "C15", "maximally concurrent scenarios under the Go race detector: 3..5 channels (custom transports, TCP-server and UDP-server peers), 3..6 API goroutines mixing all six Write* calls, a router goroutine that edits received frames, calls FixFrame and forwards them with WriteFrameExcept, a consumer, heartbeats every 2-5 ms, stream requests triggered by ArduPilot heartbeats from several senders on several channels, peers connecting and leaving (also while Close is under way), rejected input producing parse-error events, a consumer that keeps the last events and reads them again later, a second node created on the same dialect object in mid-run, and Close racing with all of it; any DATA RACE report whose stack includes a gomavlib package is a violation; non-trivial = >=2 API goroutines and >=2 channel readers active in overlapping intervals (measured from the harness timeline); distinct by hash of the scenario parameters")
-	rec.Require("overlapping-api-and-readers", "close-racing", "tcp-peer-connecting-during-close", "kept-events-read-again")
+	rec.Require("overlapping-api-and-readers", "close-racing", "tcp-peer-connecting-during-close", "kept-events-read-again", "incoming-key-with-signed-traffic-on-several-links")
 	hbLay, _ := ref.LayoutOf(refTypeOf(&minimal.MessageHeartbeat{}))
 	evid.Check(t, rec, evid.N(60, 250), func(t *rapid.T) {
 		drawNodeInit(t)
@@ -40,7 +40,12 @@ func TestC15Race(t *testing.T) {
 		leaveBeforeClose := rapid.Bool().Draw(t, "leave_before_close")
 		lateDials := rapid.SliceOfN(rapid.IntRange(0, 1500), 0, 3).Draw(t, "late_tcp_dials_us") // TCP peers that connect while Close is under way
 		rejectedInput := rapid.Bool().Draw(t, "rejected_input")                                 // frames with a wrong checksum between the valid ones: parse-error events
-		desc := fmt.Sprintf("custom=%d tcpPeers=%d udpPeers=%d apiGoroutines=%d heartbeat=%v run=%v closeRacing=%v keyed=%v slowConsumer=%v peersLeaveBeforeClose=%v tcpDialsDuringClose(us)=%v rejectedInput=%v", ncustom, ntcp, nudp, napi, hbPeriod, runFor, closeRacing, keyed, slowConsumer, leaveBeforeClose, lateDials, rejectedInput)
+		// an incoming key: every reader authenticates what it receives (all links share the key object)
+		var inKey *[32]byte
+		if rapid.IntRange(0, 2).Draw(t, "incoming_key") == 0 {
+			inKey = &[32]byte{9, 8, 7, 6}
+		}
+		desc := fmt.Sprintf("custom=%d tcpPeers=%d udpPeers=%d apiGoroutines=%d heartbeat=%v run=%v closeRacing=%v keyed=%v slowConsumer=%v peersLeaveBeforeClose=%v tcpDialsDuringClose(us)=%v rejectedInput=%v incomingKey=%v", ncustom, ntcp, nudp, napi, hbPeriod, runFor, closeRacing, keyed, slowConsumer, leaveBeforeClose, lateDials, rejectedInput, inKey != nil)
 
 		pipes := make([]*sim.Pipe, ncustom)
 		var endpoints []gomavlib.EndpointConf
@@ -54,8 +59,20 @@ func TestC15Race(t *testing.T) {
 		if keyed {
 			key = &[32]byte{4, 5, 6}
 		}
+		var tsCounter uint64 = 9000000
+		signIn := func(f ref.Frame, link byte) ref.Frame {
+			if inKey == nil || !f.V2 {
+				return f
+			}
+			f.Incompat, f.LinkID, f.Timestamp = 1, link, atomic.AddUint64(&tsCounter, 3)
+			if l := lay(f.ID); l != nil {
+				f.Checksum = f.ChecksumFor(l.CRCExtra)
+			}
+			f.Sig = f.SignatureFor(*inKey)
+			return f
+		}
 		n := &gomavlib.Node{Endpoints: endpoints, Dialect: ardupilotmega.Dialect, OutVersion: gomavlib.V2, OutSystemID: nodeSys,
-			HeartbeatPeriod: hbPeriod, StreamRequestEnable: true, OutKey: keyOf(key), WriteTimeout: 500 * time.Millisecond}
+			HeartbeatPeriod: hbPeriod, StreamRequestEnable: true, OutKey: keyOf(key), InKey: keyOf(inKey), WriteTimeout: 500 * time.Millisecond}
 		if err := initNode(&n); err != nil {
 			t.Fatalf("BROKEN: %v", err)
 		}
@@ -150,19 +167,19 @@ func TestC15Race(t *testing.T) {
 					f := ref.Frame{V2: k%2 == 0, Seq: byte(k), Sys: byte(1 + k%3), Comp: byte(1 + i), ID: 0}
 					f.Payload = hbLay.Encode(hb, f.V2)
 					f.Checksum = f.ChecksumFor(hbLay.CRCExtra)
-					p.Feed(f.Bytes())
-					p.Feed(tagged(byte(i+1), k, "debug", true, nil, 0).Bytes())
-					p.Feed(tagged(byte(i+1), k, "raw", true, nil, 0).Bytes()) // unknown to the dialect: delivered and forwarded raw
+					p.Feed(signIn(f, byte(i)).Bytes())
+					p.Feed(signIn(tagged(byte(i+1), k, "debug", true, nil, 0), byte(i)).Bytes())
+					p.Feed(signIn(tagged(byte(i+1), k, "raw", true, nil, 0), byte(i)).Bytes()) // unknown to the dialect: delivered and forwarded raw
 					{
 						// messages with text fields, the text changing from frame to frame and from channel to channel
 						st := ref.Frame{V2: k%3 != 0, Seq: byte(k), Sys: byte(60 + i), Comp: 1, ID: 253}
 						st.Payload = lay(253).Encode(&common.MessageStatustext{Severity: 6, Text: fmt.Sprintf("channel %d item %d", i, k)}, st.V2)
 						st.Checksum = st.ChecksumFor(lay(253).CRCExtra)
-						p.Feed(st.Bytes())
+						p.Feed(signIn(st, byte(i)).Bytes())
 						pv := ref.Frame{V2: true, Seq: byte(k), Sys: byte(60 + i), Comp: 1, ID: 22}
 						pv.Payload = lay(22).Encode(&common.MessageParamValue{ParamId: fmt.Sprintf("P%d_%d", i, k%97), ParamValue: float32(k), ParamCount: 100, ParamIndex: uint16(k % 100)}, true)
 						pv.Checksum = pv.ChecksumFor(lay(22).CRCExtra)
-						p.Feed(pv.Bytes())
+						p.Feed(signIn(pv, byte(i)).Bytes())
 					}
 					if rejectedInput {
 						bad := tagged(byte(i+1), k, "debug", true, nil, 0)
@@ -191,13 +208,13 @@ func TestC15Race(t *testing.T) {
 					return
 				default:
 				}
-				if p.Send(tagged(byte(10+id), k, "debug", true, nil, 0).Bytes()) != nil {
+				if p.Send(signIn(tagged(byte(10+id), k, "debug", true, nil, 0), byte(40+id)).Bytes()) != nil {
 					return
 				}
 				st := ref.Frame{V2: true, Seq: byte(k), Sys: byte(80 + id), Comp: 1, ID: 253}
 				st.Payload = lay(253).Encode(&common.MessageStatustext{Severity: 4, Text: fmt.Sprintf("peer %d says %d", id, k)}, true)
 				st.Checksum = st.ChecksumFor(lay(253).CRCExtra)
-				if p.Send(st.Bytes()) != nil {
+				if p.Send(signIn(st, byte(40+id)).Bytes()) != nil {
 					return
 				}
 				if k == 20 && id%2 == 1 {
@@ -346,6 +363,9 @@ func TestC15Race(t *testing.T) {
 		}
 		if closeRacing {
 			cls = append(cls, "close-racing")
+		}
+		if inKey != nil && ncustom+ntcp+nudp >= 2 {
+			cls = append(cls, "incoming-key-with-signed-traffic-on-several-links")
 		}
 		if len(lateDials) > 0 {
 			cls = append(cls, "tcp-peer-connecting-during-close")
